@@ -95,6 +95,12 @@ fn check_word_fault(ws: &[String], fault: &str) -> Option<Option<Viol>> {
     let bars: Vec<&str> = shown.lines().filter_map(|l| l.strip_prefix("    |     ")).collect();
     // the word parser normalises ' , : ; before reporting; the faults here contain none of them
     if bars.first().copied() != Some(fault) { return Some(Some(Viol { key: format!("word-names-other-word|{}", fault), desc: format!("word fault `{}` is shown as: {}", fault, shown.replace('\n', " \\n ")), case })); }
+    // a message that names a character of the word (diacritic `x`) must name the one under the caret
+    if let (Some(i), Some(c)) = (shown.find("diacritic `"), bars.get(1)) {
+        let named = shown[i + "diacritic `".len()..].chars().next();
+        let col = c.chars().position(|x| x == '^');
+        if let (Some(n), Some(col)) = (named, col) { if fault.chars().nth(col) != Some(n) { return Some(Some(Viol { key: format!("word-names-other-character|{}", fault), desc: format!("word fault `{}`: the message names `{}` but the caret is under `{:?}`: {}", fault, n, fault.chars().nth(col), shown.replace('\n', " \\n ")), case })); } }
+    }
     if let Some(c) = bars.get(1) { if c.trim_end().chars().count() > fault.chars().count() + 1 { return Some(Some(Viol { key: format!("word-caret-outside|{}", fault), desc: format!("caret line {:?} does not fit `{}`", c, fault), case })); } }
     Some(None)
 }
@@ -109,7 +115,7 @@ fn base_projects() -> Vec<Vec<Vec<&'static str>>> {
 
 pub fn run() -> i32 {
     let mut r = Report::new("C17");
-    r.rule = "fault catalogue of 73 rule faults (33 syntax, 40 raised at application time, 12 of them two-position errors with a wide first element, 8 unbalanced condensed rules) covering the RuleSyntaxError / RuleRuntimeError variants reachable from text, planted into 3 valid rule-group lists (1-3 groups x 1-3 lines, with blank, whitespace-only and comment lines) at every (group, line) position in three ways (replace the line, insert before, insert after); 14 alias faults at every line of a two-line deromaniser and romaniser; 8 word faults at every index of a 4-word list. Oracle: run is Err, the matching formatter does not panic, the reported rule group / line (alias kind / line, word) is the planted one and exists, the quoted line is the faulty line, and the caret line fits in [0, chars(line)+1]. Non-trivial = error located at the planted position.".into();
+    r.rule = "fault catalogue of 73 rule faults (33 syntax, 40 raised at application time, 12 of them two-position errors with a wide first element, 8 unbalanced condensed rules) covering the RuleSyntaxError / RuleRuntimeError variants reachable from text, planted into 3 valid rule-group lists (1-3 groups x 1-3 lines, with blank, whitespace-only and comment lines) at every (group, line) position in three ways (replace the line, insert before, insert after); 14 alias faults at every line of a two-line deromaniser and romaniser; 14 word faults (6 of them diacritics whose prerequisites fail, after ASCII and after multi-byte characters) at every index of a 4-word list. Oracle: run is Err, the matching formatter does not panic, the reported rule group / line (alias kind / line, word) is the planted one and exists, the quoted line is the faulty line, and the caret line fits in [0, chars(line)+1]; a message that names a character of the word names the one under the caret. Non-trivial = error located at the planted position.".into();
     let mut a = Acc::default();
     for proj in base_projects() {
         for g in 0..proj.len() { for l in 0..proj[g].len() { for mode in 0..3 { for fault in RULE_FAULTS {
@@ -138,7 +144,8 @@ pub fn run() -> i32 {
     }
     r.boxes.push(json!({"box": "alias faults x positions", "cases": al_cases, "located": al_ok}));
     // ---- word faults
-    let word_faults = ["p#a", "ˈ", "ːa", "a12345", "\u{303}a", "pa.%", "p(a", "a.ˌ"];
+    // the last six: a diacritic whose prerequisites fail, after ASCII and after multi-byte characters (positions are character indices)
+    let word_faults = ["p#a", "ˈ", "ːa", "a12345", "\u{303}a", "pa.%", "p(a", "a.ˌ", "aʰ", "ɑʰ", "tɑ̙t̙", "ˌsɛ.ˈlɑ̪", "ʃɑʰ", "ˈpɑ.tɑ̪"];
     let mut w_cases = 0u64; let mut w_ok = 0u64;
     for fault in word_faults { for pos in 0..4usize {
         let mut ws: Vec<String> = vec!["pa.ta".into(), "ˈta".into(), "a".into()];
